@@ -356,6 +356,8 @@ class Weaver:
 
     def body_open(self):
         """index in st of the item's body `{` (for fn/struct/enum/impl)"""
+        if self.item.hdr_b is None:
+            return 0
         off = self.item.hdr_b - self.item.a
         return self._idx_at(off)
 
